@@ -105,11 +105,11 @@ func ruleRestoreGuard(r *Report) {
 	})
 	// the commit replayed is the one tested
 	rc, _, _ := callCommon(reps[0])
-	same := sameExpr(rc.Args[1], cb.Params[0])
+	same := sameExpr(rc.Args[1], cbParam(cb, 0))
 	if ld, isLd := rc.Args[1].(*ssa.UnOp); isLd {
 		if al, isAl := ld.X.(*ssa.Alloc); isAl {
 			for _, ref := range *al.Referrers() {
-				if st, isSt := ref.(*ssa.Store); isSt && st.Addr == al && st.Val == ssa.Value(cb.Params[0]) {
+				if st, isSt := ref.(*ssa.Store); isSt && st.Addr == al && st.Val == ssa.Value(cbParam(cb, 0)) {
 					same = true
 				}
 			}
@@ -643,37 +643,43 @@ func ruleSnapshotCount(r *Report) {
 				incOK = true
 			}
 		})
-		// Snapshot: returns false exactly on the true edge of IsIndex, true otherwise after Column.Snapshot
-		skipOK := true
+		// Snapshot: on every path, for a bitmap index nothing is written and the result is false; for
+		// any other column the kind's Snapshot is invoked once and the result is true
 		nTrue := 0
-		for _, ret := range returnsOf(snap) {
-			c, isC := ret.Results[0].(*ssa.Const)
-			if !isC || c.Value == nil {
-				skipOK = false
-				continue
+		var evalRet func(ssa.Value) (bool, bool)
+		cfg := pathCfg{names: []string{"isIndex"}, leaf: func(c ssa.Value) (string, bool, bool) {
+			if isIndexPredicate(c) {
+				return "isIndex", false, true
 			}
-			onIdx := edgeGuarded(ret.Block(), func(cond ssa.Value) (bool, bool) {
-				return isIndexPredicate(cond), true
-			})
-			if c.Value.String() == "false" && !onIdx {
-				skipOK = false
+			return "", false, false
+		}, classify: func(ins ssa.Instruction) string {
+			if cc, _, _ := callCommon(ins); cc != nil && cc.IsInvoke() && cc.Method.Name() == "Snapshot" {
+				return "write"
 			}
-			if c.Value.String() == "true" {
+			return ""
+		}, withEval: func(ev func(ssa.Value) (bool, bool)) { evalRet = ev }}
+		skipOK, _ := evalPathsDeep(snap, cfg, func(as map[string]bool, ev []pathEvent, ret *ssa.Return) bool {
+			if ret == nil || len(ret.Results) != 1 || evalRet == nil {
+				return false
+			}
+			res := ret.Results[0]
+			if ld, isLd := res.(*ssa.UnOp); isLd && ld.Op == token.MUL {
+				if vals := cellStoresBefore(ret); len(vals) == 1 {
+					res = vals[0]
+				}
+			}
+			val, known := evalRet(res)
+			if !known {
+				return false
+			}
+			if val {
 				nTrue++
-				if onIdx {
-					skipOK = false
-				}
-				wrote, _ := false, 0
-				allInstrs(snap, func(ins ssa.Instruction) {
-					if cc, _, _ := callCommon(ins); cc != nil && cc.IsInvoke() && cc.Method.Name() == "Snapshot" && precedes(ins, ret) {
-						wrote = true
-					}
-				})
-				if !wrote {
-					skipOK = false
-				}
 			}
-		}
+			if as["isIndex"] {
+				return !val && countEvents(ev, "write") == 0
+			}
+			return val && countEvents(ev, "write") == 1
+		})
 		h.Check(incOK && skipOK && nTrue >= 1, "predicate", r.P.Pos(cnt.Pos()), "count and skip both use IsIndex", "the column count written to the snapshot and the columns actually written do not use the same predicate: the restore misreads every following buffer")
 		// column.Snapshot names the buffer after the column
 		named := false
